@@ -16,6 +16,8 @@ def run(repo, rep):
     _log_rule(repo, rep, 'C02', 'C02.Z2')
     from ..api_pitfalls import truth_rule as _truth_rule
     _truth_rule(repo, rep, 'C02', 'C02.Z4')
+    from ..api_pitfalls import attribute_rule as _attribute_rule
+    _attribute_rule(repo, rep, 'C02', 'C02.Z5')
     lx = LayoutExtractor(repo)
     rep.trust('PS3.8 9.3.2-9.3.8, Annex D.1 and PS3.7 Annex D.3.3 as transcribed in pnd_static/oracles/ps3_8_layouts.py, '
               'including the attribute -> standard field map (confirmed by reading)')
